@@ -101,6 +101,8 @@ def scenario(which, rar):
         rec = Rec("DataGeneratorObservations", dict(
             key=Key(), obs_batch_size=b, observed_pinn_in=store("pin", (n, 1))[0], observed_values=store("val", (n, 1))[0],
             observed_eq_params={"a": store("oa", (n, 1))[0]}, sharding_device=None, n=n, curr_idx=idx, indices=st))
+        v = z3.Int("anyrow")
+        ex.extra_axioms = [z3.ForAll([v], z3.And(ind(v) >= 0, ind(v) < n))]      # C15 invariant: every index lies in [0, n)
         return ex, (lambda: ex.call_method(rec, "obs_batch")), ("indices", n, ()), n, "curr_idx", pre, rec
     if which.startswith("DataGeneratorParameter.param_batch"):
         k = which[-2]        # the key whose store is examined; the other key has its own index
@@ -162,8 +164,11 @@ def run_consumer(which, rar):
     Rw = z3.Or(idx == SENT, idx + b > neff)
     goals["__canary__"] = (zint(fld(new, idxf)) == z3.If(Rw, 0, idx + b))
     goals["no_int32_overflow"] = z3.And(idx + b <= INT32_MAX, idx + b >= -INT32_MAX - 1)
-    extra = [(nm, g) for (nm, p_, g) in ex.obligations]
-    return dict(ex=ex, pc=pc, goals=goals, extra=ex.obligations, neff=neff, rows=rows, R=R, idx1=idx1)
+    axioms = list(getattr(ex, "extra_axioms", []))
+    for pm in perms:
+        v = z3.Int("anyrow2")
+        axioms.append(z3.ForAll([v], z3.Implies(z3.And(v >= 0, v < zint(pm[2])), z3.And(pm[0](v) >= 0, pm[0](v) < zint(pm[2])))))
+    return dict(ex=ex, pc=pc, goals=goals, extra=ex.obligations, neff=neff, rows=rows, R=R, idx1=idx1, axioms=axioms)
 
 
 def consumer_ob(which, rar, clause):
@@ -172,10 +177,10 @@ def consumer_ob(which, rar, clause):
         t0 = time.time()
         r = run_consumer(which, rar)
         goal = r["goals"][clause]
-        st, model = prove(goal, r["pc"], timeout_ms=20000)
+        st, model = prove(goal, r["pc"], axioms=r["axioms"], timeout_ms=20000)
         out = verdict(name, st, model, time.time() - t0, which, r)
         if out["status"] == "discharged" and clause == "index_update":
-            cst, _ = prove(r["goals"]["__canary__"], r["pc"], timeout_ms=20000)
+            cst, _ = prove(r["goals"]["__canary__"], r["pc"], axioms=r["axioms"], timeout_ms=20000)
             out["canary"] = "refuted" if cst == "sat" else "verified"
             if cst == "unsat":
                 return dict(status="error", detail="vacuity guard: the deliberately wrong postcondition verified")
@@ -191,7 +196,7 @@ def side_ob(which, rar):
         t0 = time.time()
         r = run_consumer(which, rar)
         for nm, pc_, g in r["extra"]:
-            st, model = prove(g, list(pc_) + r["pc"], timeout_ms=10000)
+            st, model = prove(g, list(pc_) + r["pc"], axioms=r["axioms"], timeout_ms=10000)
             if st != "unsat":
                 return verdict(name + ":" + nm, st, model, time.time() - t0, which, r)
         return dict(status="discharged", backend="pyvc+z3", solver_s=time.time() - t0,
@@ -329,6 +334,9 @@ def _native_monitor(which, nn, bb):
         bvals = np.asarray(batch["pinn_in"] if isinstance(batch, dict) else batch).reshape(bb, -1)[:, -1 if "border" not in which else 0]
         if "border" in which:
             bvals = np.asarray(batch)[:, 1, 0]
+        if not set(np.round(np.asarray(bvals, dtype=float), 9)) <= set(np.round(cur.astype(float), 9)) or np.isnan(np.asarray(bvals, dtype=float)).any():
+            msgs.append(f"call {call}: n={nn}, b={bb}: the batch contains rows that are not rows of the store: {np.asarray(bvals).tolist()}")
+            break
         if resh and prev is not None:
             if len(set(np.round(served, 9))) < nn:
                 msgs.append(f"call {call}: reshuffle before every point was served ({len(set(np.round(served, 9)))}/{nn})")
